@@ -75,7 +75,7 @@ NOT_APPLICABLE.pop('C15', None)
 CLAIMED['C06'] = (
     'symbolic execution of mean_squared_displacement / distances_from_base_position / tracer_diffusivity on displacement-form trajectories; polynomial identities decided by z3',
     'For every displacement-form trajectory of the bounded shapes on the pool lattices: each MSD entry equals the time-origin average of squared unwrapped Cartesian displacements, '
-    'distances equal Cartesian lengths, tracer diffusivity equals its formula for dimensions 1-3 (z3 unsat on pc AND NOT identity).',
+    'distances equal Cartesian lengths, tracer diffusivity equals its formula for dimensions 1-3 (z3 unsat on pc AND NOT identity); the same identities hold on an object that was analysed, extended in place and analysed again.',
     'np.fft by the Wiener-Khinchin contract (exact over the reals); floats read as reals, physical constants/time step exact rationals; metric tensor = M M^T; z3.',
     'DESIGN.md §3 C06')
 NOT_APPLICABLE.pop('C06', None)
@@ -90,7 +90,8 @@ NOT_APPLICABLE.pop('C14', None)
 CLAIMED['C08'] = (
     'symbolic execution of trajectory_to_volume on real-valued sample coordinates (z3) and of the voxel<->fractional mapping on binary64/int64 terms (QF_BVFP, cvc5)',
     'REAL: for all sample coordinates in [0,1) every voxel count equals the number of samples whose floor(x*n) is that voxel, the sum equals frames x atoms, edge bounds hold for the listed resolutions and for every symbolic resolution in (L/8, L]. '
-    'FP: the round trip voxel -> fractional centre -> voxel is the identity for every grid size n and index v in the bound (cvc5 unsat over all int64/float64 values in range).',
+    'FP: the round trip voxel -> fractional centre -> voxel is the identity for every grid size n and index v in the bound (cvc5 unsat over all int64/float64 values in range). '
+    'Counter width: a voxel collecting any number c of samples up to the bound stores exactly c (symbolic count through a wrap-around model of the allocated dtype, z3).',
     'np.linspace edges read as exact k/n; positions in [0,1) (C01); numpy float64/int64 conversion semantics as modelled in symgem.fp; z3 and cvc5 1.4.',
     'DESIGN.md §3 C08')
 NOT_APPLICABLE.pop('C08', None)
